@@ -123,7 +123,7 @@ CHECKS = {
        "tolerance for general factors; and by the real KernelModel.fit on scaled blocks against the model of the unscaled block.",
   note="Hypotheses of the law that are measured, not proved: rasterio.fill.fillnodata commutes with multiplication by c; numpy "
        "std / percentile scale (variance_scale is proved; the percentile is not); GDAL warp is a normalised weighted mean. Integer "
-       "output dtypes are excluded (rounding is not homogeneous). Since round 8: every fourth case stores the rescaled copies as float64 next to float32 originals (the law is about values, not about the data type of the file). Round 10: 3 input(s) found by a bug-hunting sub-agent on the unchanged code (harness/found/C07_demo*.py) are replayed by this check on every run; those that violate the property are listed in known_findings.json by script name (repaired ones must stay quiet).",
+       "output dtypes are excluded (rounding is not homogeneous). Since round 8: every fourth case stores the rescaled copies as float64 next to float32 originals (the law is about values, not about the data type of the file). Round 10: 3 input(s) found by a bug-hunting sub-agent on the unchanged code (harness/found/C07_demo*.py) are replayed by this check on every run; those that violate the property are listed in known_findings.json by script name (repaired ones must stay quiet). Round 12 (first sweeps of thorough seeds 1 and 2): for factors that are no powers of two a pixel over the tolerance budget fails only beyond twenty times what random last-bit disturbances of the scaled image do to it (two more real fusions, run only then); R2 band masks of one-pixel kernels (1 - x/0) are not compared; relative errors are taken against at least 1 % of the image's median magnitude.",
   tech="Lean 4 proof (field algebra over Q, case analysis on Option/ite) + bit-identity differential runs", ref='7 C07'),
  'C08': dict(
   text="Proof (Lean 4): under a dataset mask a hidden value reads as invalid whatever is stored; NaN nodata, numeric nodata, "
